@@ -165,7 +165,7 @@ func describe(cfg config, alpha []tm.Event, seq []int, n int) map[string]any {
 func main() {
 	r := report.New("C10", "model_checking")
 	n, depth := 4, 5
-	limits := [][2]int{{0, 0}, {1, 0}, {2, 0}, {0, 2}}
+	limits := [][2]int{{0, 0}, {1, 0}, {2, 0}, {0, 2}, {0, 3}}
 	if r.Thorough() {
 		depth = 6
 		limits = append(limits, [2]int{1, 2}, [2]int{2, 2})
